@@ -1,9 +1,9 @@
 package harness
 
 import (
+	"fmt"
 	"strings"
 	"time"
-	"fmt"
 
 	"github.com/omec-project/upf-epc/pfcpiface"
 	"github.com/omec-project/upf-epc/zzverif/vsimenv"
@@ -12,9 +12,9 @@ import (
 func init() {
 	Register(&PropDef{
 		ID: "C09", QuickRuns: 4800, Level: "exploration",
-		Rule: "one run = 2-8 sessions on the BESS datapath (one run in six instead plays sessions with one QER, with or without rates, on the P4Runtime datapath before and after kill -9 / restart of the agent, judged by the C04 image oracle incl. the application meter rate per direction; per-QFI burst configuration drawn: committed / peak / excess burst minima and burst duration, default entry present or not; the UP4 side - gate -> drop action, QFI, traffic class per QFI - is judged by the C04 image oracle) with 0-4 QERs whose rates are drawn over the 40-bit range with boundary bias (0, 1, 7, 8, 2^40-1, GBR <= MBR), both gate bits, QFIs 0..63, and QER lists per PDR drawn to hit the shapes that matter (same list in other orders, GBR only, a common QER missing from one PDR, single QER); then modifications that create or update QERs. Oracle at the simulated datapath: gate closed -> drop gate; otherwise peak rate = MBR x 125 and (BESS) committed rate = max(GBR x 125, 1), both rates zero -> unmetered; burst sizes >= rate x duration and >= the configured minimum; the QER found in the session-wide table is referenced by every PDR of the session and its parameters are that QER's, also after later messages. Non-trivial = at least one session with two or more QERs accepted; distinct = different sequence of (QER shape, list shape, outcome).",
+		Rule:   "one run = 2-8 sessions on the BESS datapath (one run in six instead plays sessions with one QER, with or without rates, on the P4Runtime datapath before and after kill -9 / restart of the agent, judged by the C04 image oracle incl. the application meter rate per direction; per-QFI burst configuration drawn: committed / peak / excess burst minima and burst duration, default entry present or not; the UP4 side - gate -> drop action, QFI, traffic class per QFI - is judged by the C04 image oracle) with 0-4 QERs whose rates are drawn over the 40-bit range with boundary bias (0, 1, 7, 8, 2^40-1, GBR <= MBR), both gate bits, QFIs 0..63, and QER lists per PDR drawn to hit the shapes that matter (same list in other orders, GBR only, a common QER missing from one PDR, single QER); then modifications that create or update QERs. Oracle at the simulated datapath: gate closed -> drop gate; otherwise peak rate = MBR x 125 and (BESS) committed rate = max(GBR x 125, 1), both rates zero -> unmetered; burst sizes >= rate x duration and >= the configured minimum; the QER found in the session-wide table is referenced by every PDR of the session and its parameters are that QER's, also after later messages. Non-trivial = at least one session with two or more QERs accepted; distinct = different sequence of (QER shape, list shape, outcome).",
 		Assume: []string{"which QER sits in the session-wide table is recognised by its absence from the application table", "x125 = kbit/s to byte/s, from the property statement"},
-		Real: CommonReal, Simulated: CommonSim,
+		Real:   CommonReal, Simulated: CommonSim,
 		Scenario: scenarioC09,
 	})
 }
@@ -255,7 +255,6 @@ func describeQERs(s *CPSession) string {
 	}
 	return out
 }
-
 
 // scenarioC09UP4: QoS as signalled on the P4Runtime datapath, with the C04 image
 // oracle (gate -> drop action, QFI, traffic class, application meter rate per
